@@ -1,2 +1,150 @@
--- stub: replaced by the slice's driver
-def main : IO Unit := IO.println "stub"
+import TriompheModel.Model.Serde
+/-!
+`drv_serde` — the executable serde model behind a line protocol (Tie B of C17).
+
+Queries (one per line; `k` = index of the callback made to fail, 0 = none):
+
+* `ser <k> <payload>` → `T=<R> Arc=<R> Unique=<R>`
+* `de <k> <payload>`  → `T=<R> Arc=<R>[<heap facts>] Unique=<R>[<heap facts>]`
+
+with `R = ok(n=<callbacks>;log=<c1,c2,…>)` or `err(at=<k>;log=<c1,…,!>)`, heap facts
+`count=<n>,allocs=<blocks added>,fresh=<new block, old ones untouched>,eq=<value equals T's>` on
+success and `allocs=<blocks added>` on error.
+
+Payload descriptions (the harness's payload family):
+`u8 N` | `u64 N` | `i32 I` | `bool B` | `str =TEXT` | `pair N =TEXT` (`(u32, String)`) |
+`seq LEN x1 … xLEN` (`Vec<u16>`) | `opt none` | `opt some N` (`Option<u8>`) |
+`outer ID =NAME A B LEN t1 … tLEN none|some N`
+(`Outer { id: u32, name: String, inner: Inner { a: i32, b: bool }, tags: Vec<u16>, opt: Option<u8> }`).
+-/
+open Serde
+
+def strTok (t : String) : Option String :=
+  if t.startsWith "=" then some (t.drop 1).toString else none
+
+def valsOfList : List Val → Vals
+  | [] => .nil
+  | v :: vs => .cons v (valsOfList vs)
+
+def parseOpt : List String → Option Val
+  | ["none"] => some .none
+  | ["some", n] => n.toNat?.map (fun n => .some (.u8 n))
+  | _ => none
+
+def parsePayload : List String → Option Val
+  | ["u8", n] => n.toNat?.map .u8
+  | ["u64", n] => n.toNat?.map .u64
+  | ["i32", i] => i.toInt?.map .i32
+  | ["bool", "true"] => some (.bool true)
+  | ["bool", "false"] => some (.bool false)
+  | ["str", t] => (strTok t).map .str
+  | ["pair", n, t] => do
+      let n ← n.toNat?; let t ← strTok t
+      pure (.tuple (.cons (.u32 n) (.cons (.str t) .nil)))
+  | "seq" :: len :: xs => do
+      let len ← len.toNat?
+      if xs.length != len then none else
+      let ns ← xs.mapM (·.toNat?)
+      pure (.seq (valsOfList (ns.map .u16)))
+  | "opt" :: rest => parseOpt rest
+  | "outer" :: id :: name :: a :: b :: len :: rest => do
+      let id ← id.toNat?; let name ← strTok name; let a ← a.toInt?
+      let b ← (if b == "true" then some true else if b == "false" then some false else none)
+      let len ← len.toNat?
+      if rest.length < len then none else
+      let ns ← (rest.take len).mapM (·.toNat?)
+      let o ← parseOpt (rest.drop len)
+      pure (.struct "Outer" (.cons "id" (.u32 id) (.cons "name" (.str name)
+        (.cons "inner" (.struct "Inner" (.cons "a" (.i32 a) (.cons "b" (.bool b) .nil)))
+        (.cons "tags" (.seq (valsOfList (ns.map .u16))) (.cons "opt" o .nil))))))
+  | _ => none
+
+def showLog (l : List Call) : String := ",".intercalate (l.map Call.toString)
+
+def showSer : Except Err Rec → String
+  | .ok r => s!"ok(n={r.n};log={showLog r.log})"
+  | .error e => s!"err(at={e.at_};log={showLog e.log})"
+
+def showDeT : Except Err (Val × Rec) → String
+  | .ok (_, r) => s!"ok(n={r.n};log={showLog r.log})"
+  | .error e => s!"err(at={e.at_};log={showLog e.log})"
+
+mutual
+def Val.beq : Val → Val → Bool
+  | .bool a, .bool b => a == b
+  | .u8 a, .u8 b => a == b
+  | .u16 a, .u16 b => a == b
+  | .u32 a, .u32 b => a == b
+  | .u64 a, .u64 b => a == b
+  | .i32 a, .i32 b => a == b
+  | .str a, .str b => a == b
+  | .none, .none => true
+  | .some a, .some b => Val.beq a b
+  | .tuple a, .tuple b => Vals.beq a b
+  | .seq a, .seq b => Vals.beq a b
+  | .struct n a, .struct m b => n == m && Fields.beq a b
+  | _, _ => false
+def Vals.beq : Vals → Vals → Bool
+  | .nil, .nil => true
+  | .cons a as, .cons b bs => Val.beq a b && Vals.beq as bs
+  | _, _ => false
+def Fields.beq : Fields → Fields → Bool
+  | .nil, .nil => true
+  | .cons n a as, .cons m b bs => n == m && Val.beq a b && Fields.beq as bs
+  | _, _ => false
+end
+
+/-- a heap with two unrelated old blocks (one shared, one sole-owned) -/
+def oldHeap : Heap (Val × Rec) := ⟨[⟨3, (.u8 0, Rec.init 0)⟩, ⟨1, (.bool true, Rec.init 0)⟩]⟩
+
+def blockSame (a b : Option (Block (Val × Rec))) : Bool :=
+  match a, b with
+  | some x, some y => x.count == y.count && Val.beq x.value.1 y.value.1
+  | none, none => true
+  | _, _ => false
+
+def showDeHandle (tv : Except Err (Val × Rec)) (res : Heap (Val × Rec) × Except Err (Handle (Val × Rec))) : String :=
+  let (h', r) := res
+  let added := h'.blocks.length - oldHeap.blocks.length
+  let oldSame := (List.range oldHeap.blocks.length).all (fun i => blockSame h'.blocks[i]? oldHeap.blocks[i]?)
+  match r with
+  | .ok a =>
+    let cnt := match h'.blocks[a.idx]? with | some b => b.count | none => 0
+    let fresh := a.idx == oldHeap.blocks.length && oldSame
+    let eq := match tv with | .ok (v, _) => Val.beq a.val.1 v | .error _ => false
+    s!"ok(n={a.val.2.n};log={showLog a.val.2.log})[count={cnt},allocs={added},fresh={fresh},eq={eq}]"
+  | .error e => s!"err(at={e.at_};log={showLog e.log})[allocs={added}]"
+
+def answer (line : String) : String :=
+  match line.trimAscii.toString.splitOn " " with
+  | "ser" :: k :: rest =>
+    match k.toNat?, parsePayload rest with
+    | some k, some v =>
+      let h : Handle (Val × Rec) := ⟨0, (v, Rec.init 0)⟩
+      let t := valPayload.serialize (v, Rec.init 0) (Rec.init k)
+      let a := Arc.serialize valPayload h (Rec.init k)
+      let u := UniqueArc.serialize valPayload h (Rec.init k)
+      s!"T={showSer t} Arc={showSer a} Unique={showSer u}"
+    | _, _ => "bad-query"
+  | "de" :: k :: rest =>
+    match k.toNat?, parsePayload rest with
+    | some k, some v =>
+      let d : DeInput := ⟨v, Rec.init k⟩
+      let t := valPayload.deserialize d
+      let a := Arc.deserialize valPayload oldHeap d
+      let u := UniqueArc.deserialize valPayload oldHeap d
+      s!"T={showDeT t} Arc={showDeHandle t a} Unique={showDeHandle t u}"
+    | _, _ => "bad-query"
+  | _ => "bad-query"
+
+partial def loop (hin hout : IO.FS.Stream) : IO Unit := do
+  let line ← hin.getLine
+  if line.isEmpty then return
+  hout.putStrLn (answer line)
+  loop hin hout
+
+def main : IO Unit := do
+  let hin ← IO.getStdin
+  let hout ← IO.getStdout
+  loop hin hout
+  hout.flush
